@@ -4,7 +4,7 @@ use super::table::{
 };
 use crate::dev::Qcow2Info;
 use crate::error::Qcow2Result;
-use crate::helpers::Qcow2IoBuf;
+use crate::helpers::{IntAlignment, Qcow2IoBuf};
 use std::cell::RefCell;
 use std::collections::VecDeque;
 
@@ -81,24 +81,19 @@ impl RefTable {
         rt
     }
 
-    /// Create a clone that covers at least `at_least_index`
-    pub fn clone_and_grow(&self, clusters: usize, cluster_size: usize, bs: usize) -> Self {
+    /// Create a clone that covers at least `at_least_index`, in whole
+    /// clusters; it has no place in the image yet
+    pub fn clone_and_grow(&self, at_least_index: usize, cluster_size: usize) -> Self {
         let entry_size = core::mem::size_of::<RefTableEntry>();
-        let ram_size = self.data.len() * entry_size;
-
-        //table in ram may not reach end of reftable in disk
-        let (new_size, new_off) = if ram_size + entry_size < clusters * cluster_size {
-            (ram_size + entry_size, self.offset)
-        } else {
-            (clusters * cluster_size + bs, None)
-        };
+        let new_entries = std::cmp::max(at_least_index + 1, self.data.len());
+        let new_size = (new_entries * entry_size).align_up(cluster_size).unwrap();
 
         let mut new_data = Qcow2IoBuf::<RefTableEntry>::new(new_size);
         new_data.zero_buf();
         new_data[..self.data.len()].copy_from_slice(&self.data);
 
         Self {
-            offset: new_off,
+            offset: None,
             data: new_data,
             dirty_blocks: RefCell::new(self.dirty_blocks.borrow().clone()),
             bs_bits: self.bs_bits,
